@@ -1,11 +1,13 @@
 (** C10 — every fee charged reaches the community pool exactly once.
 
-    Partial in one respect, stated here: the *bytes* of the Stargate message are not modelled.
-    The model's message is [FundPool depositor coin]; the correspondence decodes every real
-    payload with an independent protobuf decoder (type_url, depositor, repeated coin, no
-    trailing / unknown fields) and compares the decoded message with the model's; that the
-    chain's distribution module accepts it is outside the model. *)
-From FM Require Import PoolFees.
+    The Stargate payload is modelled down to its bytes (model/Wire.v: the protobuf encoding the
+    `anybuf` calls of state.rs:628 produce, and the decimal rendering of the amount); the
+    correspondence compares every real payload byte for byte with the model's encoder, and the
+    theorems at the end of this file show that a decoder for this schema reads back exactly the
+    recorded denomination, amount and depositor.  Outside the model: that the chain's
+    distribution module accepts the message (it is applied by the harness as a bank transfer to
+    the community-pool account after an independent `prost` decode). *)
+From FM Require Import WireFacts.
 
 (** [charged d m sender s]: what message [m] charges in denomination [d] — nothing unless it is
     a purchase, then floor(0.5 %) of the amount in the fee denomination on each side (C06).
@@ -73,6 +75,21 @@ Theorem C10_topup_keeps_fee : forall o e sender fs m s s' out id,
 Proof. exact topup_bucket_cap. Qed.
 Print Assumptions C10_topup_keeps_fee.
 
+(** The payload: a protobuf decoder for MsgFundCommunityPool reads the emitted bytes back as
+    exactly (denom, decimal amount, depositor) ... *)
+Theorem C10_payload_decodes_to_what_was_recorded : forall denom amount depositor,
+  denom <> [] -> amount <> [] -> depositor <> [] -> fits denom -> fits amount -> fits depositor ->
+  fits (encode_coin denom amount) ->
+  decode_fund_pool (encode_fund_pool denom amount depositor) = Some (denom, amount, depositor).
+Proof. exact decode_fund_pool_encode. Qed.
+Print Assumptions C10_payload_decodes_to_what_was_recorded.
+
+(** ... and the decimal amount string of every Uint128 fee reads back as the same number. *)
+Theorem C10_amount_string_roundtrip : forall a,
+  a < U128 -> decimal a <> [] /\ parse_decimal (decimal a) 0 = Some a.
+Proof. exact fee_amount_roundtrip. Qed.
+Print Assumptions C10_amount_string_roundtrip.
+
 Definition winit : world :=
   mkW (fun a d => if (a =? 1) || (a =? 2) || (a =? 3) then 100000 else 0) (fun _ _ => 0) (fun _ _ => None)
       (fun a => if a =? 50 then KMarket else if a =? 51 then KRegistry else KUser)
@@ -89,7 +106,10 @@ Example C10_hyps_met :
   fresh winit /\ kind winit (pool_addr winit) = KUser /\ all_quiet winit ops0 /\
   total_charged 0 winit ops0 = 99 /\ bank (run winit ops0) 52 0 = 99 /\ pending_fees (market (run winit ops0)) 0 = 0 /\
   bank (run winit (firstn 7 ops0)) 52 0 = 50 /\ pending_fees (market (run winit (firstn 7 ops0))) 0 = 49 /\
-  bank (run winit ops0) 50 0 = 0.
+  bank (run winit ops0) 50 0 = 0 /\
+  (* "ujunox", 50, "contract0" *)
+  encode_fund_pool [117;106;117;110;111;120] (decimal 50) [99;111;110;116;114;97;99;116;48]
+    = [10;12;10;6;117;106;117;110;111;120;18;2;53;48;18;9;99;111;110;116;114;97;99;116;48].
 Proof.
   split.
   { unfold fresh. split; [exists 100000000000; reflexivity|]. split; [reflexivity|]. split; [vm_compute; discriminate|].
